@@ -12,4 +12,6 @@ sys.path.insert(0, '.')
 from mirse import mir
 print('MIR dump:', mir.dump_mir())
 PY
+# warm the Kani build of the harness crate (Engine A)
+(cd harness && CARGO_TARGET_DIR="$PWD/../.work/target-kani" cargo kani -Z stubbing -Z unstable-options --only-codegen >/dev/null 2>&1 || echo 'kani warm-up failed (checks will retry)')
 echo setup done
